@@ -627,9 +627,12 @@ class SugarGen(Gen):
                 head = {"row_id": bid, "edges": es}
                 if r.random() < 0.55:
                     var = r.choice(["x", "item", "v"]) + str(self.depth)
-                    if self.shadow and self.ctxvars and r.random() < 0.6:
-                        var = r.choice(self.ctxvars)      # shadows a context variable
                     idxvar = ("i" + str(self.depth)) if r.random() < 0.4 else None
+                    outer = self.ctxvars + self.loopvars
+                    if self.shadow and outer and r.random() < 0.6:
+                        var = r.choice(outer)             # shadows a context variable or an enclosing loop's variable
+                    if self.shadow and outer and idxvar and r.random() < 0.35:
+                        idxvar = r.choice(outer)          # ... and so may the index variable (possibly the same name)
                     n = r.choice([1, 2, 2, 3] + ([0] if self.empty_loops else []))
                     style = r.choice(["plain", "plain", "native", "range"])
                     if style == "range":
